@@ -321,8 +321,18 @@ class Inliner:
             for st in body:
                 r = Y().visit(st)
                 out.extend(r if isinstance(r, list) else [r])
-            if not Y.ok or _has(ast.Module(body=list(s.body), type_ignores=[]), (ast.Break,)) or s.orelse:
+            if not Y.ok or s.orelse:
                 return None
+            if _has(ast.Module(body=list(s.body), type_ignores=[]), (ast.Break,)):
+                # a `break` in the consumer ends the generator's own loop instead: the same thing only if that loop is the last
+                # statement of the generator and holds every yield
+                gb = _body(fn)
+                last = gb[-1] if gb else None
+                n_y = sum(1 for x in ast.walk(fn) if isinstance(x, ast.Yield))
+                n_in = sum(1 for x in ast.walk(last) if isinstance(x, ast.Yield)) if isinstance(last, (ast.While, ast.For)) else 0
+                nested_loops = sum(1 for x in ast.walk(last) if isinstance(x, (ast.While, ast.For))) if last is not None else 0
+                if not (isinstance(last, (ast.While, ast.For)) and n_y == n_in and nested_loops == 1):
+                    return None
             for st in out:
                 ast.fix_missing_locations(st)
             return out
